@@ -281,7 +281,13 @@ func (fc *fnCtx) doCall(st *State, fr *frame, call *ssa.Call, k func(*State, Val
 			}
 			st.ghost["lockseen:"+recv.T] = recv.T
 		}
+		if fc.interf && spec.key == "(*sync.Mutex).Unlock" {
+			fc.lockInvariant(st, fr, call, site, true)
+		}
 		fc.applySpec(st, fr, site, spec, recv, args, resT, func(st *State, res []Val) {
+			if fc.interf && spec.key == "(*sync.Mutex).Lock" {
+				fc.lockInvariant(st, fr, call, site, false)
+			}
 			k(st, packResults(res))
 		})
 		return
